@@ -71,7 +71,11 @@ claim("C01", "Chain of contracts: P3 on each compute_domains_X under contract; B
       "contract-based deductive verification + bounded engine suite", level="other")
 claim("C02", "Loop contracts of solve_one / BacktrackSolver.solve: each search resumes from a well-formed stack, the branching contract (C09) partitions, the variable heuristics return an open decision domain or -1 only when none is left, "
       "exhaustion is reported only with an empty stack; stack levels stay pairwise separated on the recorded split domain; semantic layer (ghost solution sigma, uninterpreted relations): BC and shaving keep every solution of the box, "
-      "and a search (solve_one#sem) never loses a solution that is somewhere in the stack. The last composition step (delivered exactly once over a whole enumeration) is checked by the bounded engine suite against brute force under all 24 configurations.",
+      "and a search (solve_one#sem) never loses a solution that is somewhere in the stack; an assignment that is in no level of the stack never comes back (solve_one#once, #enum). "
+      "Exactly-once over a whole enumeration (BacktrackSolver.solve#enum, partial correctness): ghost flag 'seen' for the ghost assignment sigma; at every yield 'sigma is the delivered point implies not seen before' is an obligation (at most once), "
+      "after the pop the delivered point is separated from every remaining level on that level's recorded split domain (C02.disjoint), and when the generator ends every solution that was in the stack has been seen (at least once). "
+      "With C01 (#acc: what is delivered satisfies every posted relation) the delivered multiset is the solution set, for any heuristics satisfying the interface contracts and any ConsistencyAlg satisfying its interface (BC and shaving do). "
+      "Termination of the search loop is not proved (bounded suite with watchdog); the independence from posting order and the equality of multisets across the 24 configurations are cross-checked by the bounded engine suite against brute force.",
       "contract-based deductive verification + bounded engine suite", level="other")
 claim("C03", "Loop contracts of BacktrackSolver.optimize / optimize_and_queue (both directions): after each improving solution the solver is reset to the root, the objective view bound is set just past the incumbent (through the offset), "
       "the incumbent stays inside the declared domain, the loop measure decreases; decrease_max / increase_min contracts; MultiprocessingSolver.optimize keeps the extremal message. "
